@@ -12,15 +12,21 @@ def check_c08(tier):
     t = "quick" if tier == "quick" else "full"
     cases, stats = tlc.gen_cases(t)
     res = sympyx.replay(cases, full=(tier == "thorough"))
+    # the conversion states of spec/Convert.tla on symbolic vectors
+    from .checks_names import gen_conv
+
+    ccases, cstats = gen_conv()
+    cres = sympyx.replay_conversions(ccases)
     v = common.Verdicts("C08")
     v.extend(res["records"])
+    v.extend(cres["records"])
     nviol, nknown = v.finish()
     if res["calls"] < 1000 or res["expressions"] < 200:
         raise RuntimeError("vacuous run")
     regular = [c for c in cases if c["reg"] == "T"]
-    cov = {"states": stats["distinct"], "transitions": stats["generated"], "traces_validated_against_impl": res["cases"],
+    cov = {"states": stats["distinct"] + cstats["distinct"], "transitions": stats["generated"] + cstats["generated"], "traces_validated_against_impl": res["cases"] + cres["cases"],
            "samples": [regular[0], regular[len(regular) // 2]], "regular_cases": len(regular),
-           "distinct_symbolic_expressions_built": res["expressions"], "evaluations": res["calls"], "distinct_nontrivial": res["cases"],
+           "distinct_symbolic_expressions_built": res["expressions"], "conversion_states_executed_symbolically": cres["cases"], "conversion_calls": cres["calls"], "evaluations": res["calls"] + cres["calls"], "distinct_nontrivial": res["cases"],
            "rule": ("cases = states of spec/Cases.tla whose operands satisfy the TLA+ predicate Regular (off-axis, timelike, forward) and whose exact "
                     "result is regular as well; for each case and coordinate-system pairing (quick: 2 sampled, thorough: all) the SymPy backend builds "
                     "the expression with symbolic coordinates and parameters, which is evaluated with 60-digit mpmath at the stored coordinates of the "
@@ -46,10 +52,10 @@ def check_c07(tier):
     if res["compiled"] < 100 or res["calls"] < 500:
         raise RuntimeError("vacuous run")
     cov = {"states": stats["distinct"] + pst["distinct"], "transitions": stats["generated"] + pst["generated"],
-           "traces_validated_against_impl": res["jobs"] + res["programs"] + res["awkward"],
+           "traces_validated_against_impl": res["jobs"] + res["programs"] + res["awkward"] + res["extra"],
            "samples": [{"source": "def f(a, b):\n    return a.boost_p4(b)\n"}, {"source": numbax.AK_TEMPLATES["pairwise"].format(binop="deltaR")}],
            "compiled_functions": res["compiled"], "one_call_jobs": res["jobs"], "multi_call_programs": res["programs"],
-           "awkward_array_templates": res["awkward"], "comparisons": res["calls"], "supported_members": sorted(numbax.SUPPORTED | set(numbax.MOMENTUM_PROPS)),
+           "awkward_array_templates": res["awkward"], "operator_conversion_constructor_synonym_items": res["extra"], "comparisons": res["calls"], "supported_members": sorted(numbax.SUPPORTED | set(numbax.MOMENTUM_PROPS)),
            "evaluations": res["calls"], "distinct_nontrivial": res["compiled"],
            "rule": ("programs = one-call cases of spec/Cases.tla for every numba-supported member (per operation: 2 sampled coordinate-system/flavor "
                     "combinations in quick, up to 24 in thorough, each evaluated on up to 12/40 lattice operand tuples) and multi-call programs of "
